@@ -11,6 +11,8 @@ import (
 	"encoding/json"
 	"fmt"
 	"io"
+	"math"
+	"math/big"
 	"os"
 	"os/exec"
 	"reflect"
@@ -166,6 +168,11 @@ func c15mkDoc(f []*TNode) (d *c15Doc, ok bool) {
 var c15given = []string{"John", "Nan", "Inf", "Mary Ann", "  Bob  ", "Élise", "10", "9", "1e1", "x", "Infinity", "nan", "J  R   R", "0"}
 var c15sur = []string{"Smith", "Doe", "NaN", "de la Cruz", "O'Neil", "10", "Smith ", "Ünal", ""}
 
+var c15dates = []string{"3 Sep 1943", "Abt. 1900", "1850", "Bef. Oct 1943", "Mar 1901", "garbage", "Bet. 1990 and 1995", "(about noon)",
+	"Aft. 3 Sep 1926", "1926", "1927", "Bef. 1800", "1 Jan 2020", "29 Feb 2000", "Dec 1999", "from 1901 to 1905", "31 Dec 1925", "2 Jan 1926"}
+var c15places = []string{"Oldtown", "Sydney, Australia", "Paris", "Sydney, , NSW, Australia", "Paris, France", "a,b,c,d", "London, England.",
+	", ,", "New York, USA", " Oslo , x, y , Norway ", "Somewhere in new zealand", "Georgia"}
+
 func c15name(r *Rand) string {
 	switch r.Intn(8) {
 	case 0:
@@ -216,14 +223,18 @@ func c15famDoc(r *Rand, maxInd int) []*TNode {
 		if r.Chance(2, 3) {
 			ind.Kids = append(ind.Kids, T("SEX", r.Pick([]string{"M", "F", "U", "X", ""}), ""))
 		}
-		for _, ev := range []string{"BIRT", "DEAT", "BAPM", "BURI", "RESI"} {
+		for _, ev := range []string{"BIRT", "BIRT", "DEAT", "BAPM", "BAPL", "BURI", "RESI", "EVEN"} {
 			if r.Chance(1, 3) {
 				e := T(ev, "", "")
-				if r.Chance(3, 4) {
-					e.Kids = append(e.Kids, T("DATE", r.Pick([]string{"3 Sep 1943", "Abt. 1900", "1850", "Bef. Oct 1943", "Mar 1901", "garbage"}), ""))
+				for nd := []int{1, 1, 1, 0, 2}[r.Intn(5)]; nd > 0; nd-- {
+					e.Kids = append(e.Kids, T("DATE", r.Pick(c15dates), ""))
 				}
 				if r.Chance(1, 2) {
-					e.Kids = append(e.Kids, T("PLAC", r.Pick([]string{"Oldtown", "Sydney, Australia", "Paris"}), ""))
+					pl := T("PLAC", r.Pick(c15places), "")
+					if r.Chance(1, 8) {
+						pl.Kids = append(pl.Kids, T("FORM", r.Pick([]string{"City, County, State, Country", "a,b,c,Norway", ""}), ""))
+					}
+					e.Kids = append(e.Kids, pl)
 				}
 				ind.Kids = append(ind.Kids, e)
 			}
@@ -239,24 +250,63 @@ func c15famDoc(r *Rand, maxInd int) []*TNode {
 	}
 	for i := 0; i < nf; i++ {
 		fam := T("FAM", "", fmt.Sprintf("F%d", i+1))
-		if r.Chance(3, 4) {
-			fam.Kids = append(fam.Kids, T("HUSB", fmt.Sprintf("@I%d@", 1+r.Intn(n)), ""))
+		ref := func() string { // mostly a person of the file; sometimes dangling, of the wrong kind, or not a pointer
+			switch r.Intn(14) {
+			case 0:
+				return "@I99@"
+			case 1:
+				return "@F1@"
+			case 2:
+				return r.Pick([]string{"I1", "@@", "@I1", "x", ""}) // not a pointer / an empty role value
+			}
+			return fmt.Sprintf("@I%d@", 1+r.Intn(n))
 		}
 		if r.Chance(3, 4) {
-			fam.Kids = append(fam.Kids, T("WIFE", fmt.Sprintf("@I%d@", 1+r.Intn(n)), ""))
+			fam.Kids = append(fam.Kids, T("HUSB", ref(), ""))
+		}
+		if r.Chance(3, 4) {
+			fam.Kids = append(fam.Kids, T("WIFE", ref(), ""))
+		}
+		if r.Chance(1, 12) {
+			fam.Kids = append(fam.Kids, T("HUSB", ref(), "")) // a second HUSB line: the first one counts
 		}
 		for k := r.Intn(4); k > 0; k-- {
-			fam.Kids = append(fam.Kids, T("CHIL", fmt.Sprintf("@I%d@", 1+r.Intn(n)), ""))
+			fam.Kids = append(fam.Kids, T("CHIL", ref(), ""))
+		}
+		if r.Chance(1, 4) {
+			fam.Kids = append(fam.Kids, T(r.Pick([]string{"MARR", "DIV"}), "", "", T("DATE", r.Pick(c15dates), "")))
 		}
 		f = append(f, fam)
 	}
 	if r.Chance(1, 3) {
 		f = append(f, T("SOUR", "", "S1", T("TITL", "A source", "")))
 	}
+	if n > 0 && r.Chance(1, 10) { // a second record with a pointer that is already taken
+		f = append(f, T("INDI", "", fmt.Sprintf("I%d", 1+r.Intn(n)), T("NAME", "Dup /Licate/", "")))
+	}
 	if r.Chance(1, 2) {
 		f = append(f, T("TRLR", "", ""))
 	}
 	return f
+}
+
+// c15faultyDocs: the C14 fault layer in small — a couple whose one side dangles / is a record of
+// the wrong kind (Spouses() then holds a nil entry), empty role values, people without NAME,
+// duplicate pointers.
+func c15faultyDocs() [][]*TNode {
+	indi := func(p, name string) *TNode {
+		t := T("INDI", "", p)
+		if name != "" {
+			t.Kids = append(t.Kids, T("NAME", name, ""))
+		}
+		return t
+	}
+	return [][]*TNode{
+		{indi("I1", "Ann /Lee/"), indi("I2", ""), T("FAM", "", "F1", T("HUSB", "@I1@", ""), T("WIFE", "@I9@", ""), T("CHIL", "@I2@", ""), T("CHIL", "@I7@", ""))},
+		{indi("I1", "Ann /Lee/"), T("FAM", "", "F1", T("HUSB", "@F1@", ""), T("WIFE", "@I1@", ""), T("CHIL", "@F1@", ""))},
+		{indi("I1", ""), indi("I2", "Bob /Ray/"), T("FAM", "", "F1", T("HUSB", "", ""), T("WIFE", "@I1@", ""), T("CHIL", "", "")), T("FAM", "", "F2", T("HUSB", "@I2@", ""), T("WIFE", "@I1@", ""))},
+		{indi("I1", "Ann /Lee/"), indi("I1", "Other /Ann/"), indi("I2", "Bob /Ray/"), T("FAM", "", "F1", T("HUSB", "@I2@", ""), T("WIFE", "@I1@", "")), T("FAM", "", "F1", T("HUSB", "@I1@", ""))},
+	}
 }
 
 // c15docPool: the empty document, tiny documents and random family graphs.
@@ -274,6 +324,9 @@ func c15docPool(c *Ctx, r *Rand, n, maxInd int) []*c15Doc {
 	add([]*TNode{T("INDI", "", "I1")})
 	add([]*TNode{T("INDI", "", "I1", T("NAME", "Nan /Doe/", ""), T("SEX", "F", "")), T("INDI", "", "I2", T("NAME", "John /Smith/", ""), T("NAME", "Jack /Smyth/", "")),
 		T("FAM", "", "F1", T("HUSB", "@I2@", ""), T("WIFE", "@I1@", ""))})
+	for _, f := range c15faultyDocs() { // pool[4..7]
+		add(f)
+	}
 	for len(pool) < n {
 		add(c15famDoc(r, maxInd))
 	}
@@ -651,8 +704,12 @@ func c15docsWire(pool []*c15Doc, ids []int) string {
 	return sb.String()
 }
 
+// c15year is the current year the implementation reads from the clock (IndividualNode.IsLiving);
+// it is an explicit input of the model.
+var c15year = strconv.Itoa(time.Now().Year())
+
 func c15req(pool []*c15Doc, j c15Job) string {
-	return "qeval " + j.Mode + " " + hexs(j.Query) + " " + c15docsWire(pool, j.Docs)
+	return "qeval " + j.Mode + " " + c15year + " " + hexs(j.Query) + " " + c15docsWire(pool, j.Docs)
 }
 
 // ---------------------------------------------------------------- query generators
@@ -829,6 +886,12 @@ func (g *c15Gen) program(d int) string {
 	return strings.Join(ss, "; ")
 }
 
+var c15relationQueries = []string{".Individuals | .Spouses", ".Individuals | .Families", ".Individuals | .Parents", ".Individuals | .Children", ".Individuals | .SpouseChildren",
+	".Families | .Husband", ".Families | .Wife", ".Families | .Children", ".Families | .Husband | .Individual", ".Families | .Wife | .Individual",
+	".Families | {c: .Children | .Individual}", ".Individuals | First(1) | Only(1 = 1) | .Spouses", ".Individuals | Last(1) | .Spouses", ".Individuals | {s: .Spouses}",
+	".Families | .Husband | .Individual | .Spouses", ".Individuals | .Name", ".Individuals | .Birth", ".Individuals | .Births", ".Families | .Children | Length",
+	".Individuals | .Spouses | First(1)", "Combine(.Individuals | .Spouses, .Individuals | .Spouses)", ".Individuals | .FamilyWithUnknownSpouse", ".Individuals | .AllEvents"}
+
 var c15examples = []string{
 	`.Individuals | .Name`, `.Individuals | .Name | .String`, `.Individuals | NodesWithTagPath("DEAT")`,
 	`.Individuals | NodesWithTagPath("BIRT", "DATE")`,
@@ -969,7 +1032,7 @@ func init() {
 	runners["C15"] = func(c *Ctx) {
 		c.Rule = "query strings: every token sequence up to length 3 over a 25-token alphabet (4 over a 19-token one; thorough: 4, and 5 over 14 tokens), grammar-generated programs of depth ≤ 3 over every accessor reflection finds and every built-in, mutated documented examples, random bytes; × empty / tiny / random documents (1–2) × 5 formatters; evaluated in child processes; distinct = (parse, raw, top, formatter classes, Go type of the result)"
 		r := c.R
-		pool := c15docPool(c, r.Fork("docs"), c.N(10, 40), 6)
+		pool := c15docPool(c, r.Fork("docs"), c.N(18, 60), 6)
 		var jobs []c15Job
 		pickDocs := func(rr *Rand) []int {
 			if rr.Chance(1, 5) {
@@ -1009,6 +1072,13 @@ func init() {
 				}
 				add("accessor-sweep", query, []int{3})
 				add("accessor-sweep", query, []int{4 % len(pool)})
+			}
+		}
+		// relations and role nodes on every document (faulty references give nil entries), so that
+		// such results reach all five formatters
+		for d := range pool {
+			for _, query := range c15relationQueries {
+				add("relation-sweep", query, []int{d})
 			}
 		}
 		// 3. mutated documented examples
@@ -1097,7 +1167,16 @@ func c15compare(c *Ctx) func(req, impl, model string) bool {
 				c.Count("model=" + c15unsupportedWhy(model))
 				return true
 			}
-			c.Count("model=compared")
+			if i := strings.Index(model, " json=?"); i >= 0 {
+				// the value depends on a comparison the model does not determine (float64 text): classes only
+				c.Count("model=value undetermined (classes compared)")
+				if j := strings.Index(impl, " json="); j >= 0 {
+					impl = impl[:j]
+				}
+				model = model[:i]
+			} else {
+				c.Count("model=compared")
+			}
 			if impl == model {
 				return true
 			}
@@ -1137,7 +1216,7 @@ func c15sameClasses(req, impl, model string) bool {
 	if len(fi) < 3 || len(fm) < 3 || len(fi) != len(fm) {
 		return false
 	}
-	q := unhex(strings.Fields(req)[2])
+	q := unhex(strings.Fields(req)[3])
 	multiField := strings.Contains(q, "{") && strings.Contains(q, ",")
 	bad := func(s string) bool { return s == "error" || s == "panic" || s == "fatal" }
 	for k := range fi {
@@ -1152,9 +1231,31 @@ func c15sameClasses(req, impl, model string) bool {
 			}
 			continue
 		}
-		if a != b {
+		if a != b && !c15sameNumber(a, b) {
 			return false
 		}
 	}
 	return true
+}
+
+// c15sameNumber: a float64 of the implementation ("i1943.672131147541") against the model's exact
+// fraction ("r<num>/<den>"), within 1e-9 relative.
+func c15sameNumber(impl, model string) bool {
+	if !strings.HasPrefix(model, "r") || !strings.HasPrefix(impl, "i") {
+		return false
+	}
+	parts := strings.SplitN(model[1:], "/", 2)
+	if len(parts) != 2 {
+		return false
+	}
+	r, ok := new(big.Rat).SetString(parts[0] + "/" + parts[1])
+	if !ok {
+		return false
+	}
+	want, _ := r.Float64()
+	got, err := strconv.ParseFloat(impl[1:], 64)
+	if err != nil {
+		return false
+	}
+	return math.Abs(got-want) <= 1e-9*math.Max(1, math.Abs(want))
 }
